@@ -85,6 +85,6 @@ pub static DEF: CheckDef = CheckDef {
     id: "C03", level: "exploration", gen, exec,
     nontrivial: |o| o.counters.get("cmds").copied().unwrap_or(0) >= 20,
     rule: "one run = one seeded history of 20-300 list/set/hash commands (all index forms incl. beyond both ends, reversed, i64 bounds and non-integers; duplicate elements; LREM counts of both signs; multi-key set algebra over present/missing/wrong-type keys; SPOP/SRANDMEMBER with all count signs; HINCRBY at i64 bounds; empty/binary/CRLF elements; wrong arities) with per-seed process entropy (hash iteration orders, random picks); every reply is compared with the reference model (unordered replies as multisets, random picks must come from the current members, the model then follows the pick) and the stored dataset is compared after every command (emptied collections must vanish); non-trivial = at least 20 commands; distinct = distinct event-log hash",
-    quick_budget_s: 40.0, thorough_budget_s: 900.0, quick_max_runs: 1_000_000, thorough_max_runs: 100_000_000, exhaustive: false,
+    quick_budget_s: 40.0, thorough_budget_s: 900.0, quick_max_runs: 1_000_000, thorough_max_runs: 100_000_000, exhaustive: false, exhaustive_after: |_| 0,
     real: REAL_WHOLE_SERVER, stub: STUB_WHOLE_SERVER, assumptions: ASSUME_COMMON,
 };
